@@ -3,9 +3,10 @@ package main
 import (
 	"fmt"
 	"go/token"
-	"strings"
 	"go/types"
 	"math/big"
+	"os"
+	"strings"
 
 	"golang.org/x/tools/go/ssa"
 )
@@ -17,6 +18,10 @@ func (st *State) execSimple(fr *Frame, in ssa.Instruction) bool {
 	case *ssa.DebugRef:
 		// remember the value of source-level variables so that loop invariants can name locals
 		if obj, ok := x.Object().(*types.Var); ok && !obj.IsField() {
+			if os.Getenv("GOVC_DEBUG") == "2" {
+				_, has := fr.vals[x.X]
+				fmt.Fprintf(os.Stderr, "DBGREF %s -> %s (%T) has=%v\n", obj.Name(), x.X.Name(), x.X, has)
+			}
 			if v, ok2 := fr.vals[x.X]; ok2 {
 				if fr.dbg == nil {
 					fr.dbg = map[string]dbgVar{}
